@@ -420,7 +420,7 @@ func convTypeToTarget(source interface{}, target reflect.Type) (interface{}, err
 			if IsNull(source) {
 				return "", nil
 			}
-			return fmt.Sprintf("%v", source), nil
+			return sprintValue(source), nil
 		}
 		return nil, fmt.Errorf("convTypeToTarget %T not conv to %v", source, target)
 	}
@@ -980,8 +980,52 @@ func convToString(v interface{}) string {
 	case *decimal.Big:
 		return n.String()
 	default:
-		return fmt.Sprintf("%v", v)
+		return sprintValue(v)
 	}
+}
+
+// sprintValue formats v like fmt's %v. A formula can make its data map reachable
+// from itself (`$x = this`); fmt would recurse on such a value until the stack
+// overflows, which is fatal and cannot be recovered, so it is reported as an
+// ordinary evaluation error instead.
+func sprintValue(v interface{}) string {
+	if containsItself(reflect.ValueOf(v), map[uintptr]bool{}) {
+		panic(errors.New("can't format a value that contains itself"))
+	}
+	return fmt.Sprintf("%v", v)
+}
+
+func containsItself(v reflect.Value, onPath map[uintptr]bool) bool {
+	switch v.Kind() {
+	case reflect.Interface:
+		return !v.IsNil() && containsItself(v.Elem(), onPath)
+	case reflect.Map, reflect.Slice:
+		if v.Len() == 0 {
+			return false
+		}
+		p := v.Pointer()
+		if onPath[p] {
+			return true
+		}
+		onPath[p] = true
+		defer delete(onPath, p)
+		if v.Kind() == reflect.Map {
+			for it := v.MapRange(); it.Next(); {
+				if containsItself(it.Value(), onPath) {
+					return true
+				}
+			}
+			return false
+		}
+		fallthrough
+	case reflect.Array:
+		for i := 0; i < v.Len(); i++ {
+			if containsItself(v.Index(i), onPath) {
+				return true
+			}
+		}
+	}
+	return false
 }
 
 func convToNumber(v interface{}) *decimal.Big {
